@@ -11,8 +11,11 @@ Model: `JPText/Print.lean` (the printers), `JPText/Parse.lean` (jp/parse.go), ov
 `Gen.Jp.tokenMap/jMap/eqMap/hex/maxEnd` and `Gen.JpOps` (the operator table of jp/script.go).
 Statement of the property on the model: `JPText/Spec.lean` (`roundTrips*`, the normal form, `Dev`).
 
-The pinned tree does NOT have the property (`C14_full_false`); what is proved is the partial form,
-which excludes exactly the objects for which `Spec.lean` names a deviation. -/
+The pinned tree violated C14 in thirteen ways; eleven are repaired in /repo (commits e6c1ad4 d27ad83
+9a26786 cd355fe 32b7b46 fe63c88 c107b3b bc70af1 4af356a b3b14ce) and the model follows them. Two
+classes of constructible objects have no text form in the grammar and no repair (`Dev.noTextForm`,
+`Dev.regexText`): the property at full strength is still false (`C14_full_false`), what is proved
+excludes exactly those. -/
 namespace OjgVerif.C14
 open OjgVerif OjgVerif.JPText
 
@@ -54,45 +57,49 @@ def witnessTimesPlus : Eqn :=
 def witnessMinusMinus : Eqn :=
   .bin Gen.JpOps.op_sub (.val (.int 2)) (.bin Gen.JpOps.op_sub (.val (.int 3)) (.val (.int 4)))
 
-/-- `Equation.String` writes `(2 * 3 + 4)` -/
-theorem witness_equation_text : eqnString witnessTimesPlus = some [40, 50, 32, 42, 32, 51, 32, 43, 32, 52, 41] := by
+/-- `Equation.String` writes `(2 * (3 + 4))`. Before e6c1ad4 it wrote `(2 * 3 + 4)`, which was the
+witness of `C14_full_false` (finding C14-equation-parens, fixed). -/
+theorem witness_equation_text :
+    eqnString witnessTimesPlus = some [40, 50, 32, 42, 32, 40, 51, 32, 43, 32, 52, 41, 41] ∧
+      roundTripsEqn witnessTimesPlus = true := by
   decide +kernel
 
-/-- `Script.String` writes `(2 - 3 - 4)`, which is read as `(2 - 3) - 4` -/
-theorem witness_script_text : scriptPrint witnessMinusMinus.script = [40, 50, 32, 45, 32, 51, 32, 45, 32, 52, 41] := by
+/-- `Script.String` writes `(2 - (3 - 4))`. Before d27ad83 it wrote `(2 - 3 - 4)`, read back as
+`(2 - 3) - 4` (finding C14-equal-prec, fixed). -/
+theorem witness_script_text :
+    scriptPrint witnessMinusMinus.script = [40, 50, 32, 45, 32, 40, 51, 32, 45, 32, 52, 41, 41] ∧
+      roundTripsScript witnessMinusMinus = true := by
   decide +kernel
 
+/-- `R().Descent().Nth(1)` is written `$..[1]` and read back. Before bc70af1 it was written `$.[1]` and
+rejected (finding C14-descent, fixed). -/
+theorem descent_bracket_accepted :
+    exprPrint false [.root, .descent, .nth 1] = [36, 46, 46, 91, 49, 93] ∧
+      roundTripsExpr false [.root, .descent, .nth 1] = true ∧ roundTripsExpr true [.root, .descent, .nth 1] = true := by
+  decide +kernel
+
+/-- the property at full strength is still false: `R().Root()` is constructible, prints `$$`, and that
+is read as `$` (known finding C14-no-text-form: the grammar has no text for a Root after the first
+fragment) -/
 theorem C14_full_false : ¬ C14_full := by
   intro h
-  have h1 := (h.2 witnessTimesPlus (by decide +kernel)).1
-  have h2 : roundTripsEqn witnessTimesPlus = false := by decide +kernel
+  have h1 := h.1 false [.root, .root] (by decide)
+  have h2 : roundTripsExpr false [.root, .root] = false := by decide +kernel
   rw [h2] at h1
   cases h1
 
-/-- `$..[1]`: `R().Descent().Nth(1)` is written `$.[1]` and rejected -/
-theorem descent_bracket_rejected :
-    exprPrint false [.root, .descent, .nth 1] = [36, 46, 91, 49, 93] ∧
-      parseExpr (exprPrint false [.root, .descent, .nth 1]) = none := by
-  decide +kernel
+/-! ## keys, union members and string constants: the quoted form round-trips for ALL byte strings -/
 
-/-! ## keys and string constants: the quoted form round-trips for ALL byte strings -/
-
-/-- For every byte string `s` and whatever text follows: `AppendString(s, '\'')` starts with the quote,
-and `readStr`, having consumed it, returns `sanitize s` (`s` with each byte that is not part of a valid
-UTF-8 sequence replaced by U+FFFD, the known finding `C14-utf8`) and exactly the text that follows.
-Reads `Gen.Jp.jMap` and `Gen.Jp.hex` (256 cells checked by kernel evaluation inside the proof). -/
+/-- For every byte string `s` — valid UTF-8 or not, since c107b3b — and whatever text follows:
+`AppendString(s, '\'')` starts with the quote, and `readStr`, having consumed it, returns `s` and exactly
+the text that follows. Reads `Gen.Jp.jMap` and `Gen.Jp.hex` (256 cells checked by kernel evaluation inside
+the proof). Before c107b3b an undecodable byte came back as U+FFFD (finding C14-utf8, fixed). -/
 theorem quoted_roundtrip (s rest : Bytes) :
-    ∃ t, appendString s 39 ++ rest = 39 :: t ∧ readStr 39 t = some (sanitize s.length s, rest) :=
+    ∃ t, appendString s 39 ++ rest = 39 :: t ∧ readStr 39 t = some (s, rest) :=
   readStr_appendString s rest
 
-/-- … and it is `s` itself when `s` is valid UTF-8 -/
-theorem quoted_roundtrip_valid (s rest : Bytes) (h : utf8Ok s = true) :
-    ∃ t, appendString s 39 ++ rest = 39 :: t ∧ readStr 39 t = some (s, rest) :=
-  readStr_appendString_valid s rest h
-
-/-- not vacuous, and the excluded class is real: `"\xff"` is written `'\ufffd'` -/
-example : utf8Ok [97, 0xC3, 0xA9, 39, 92, 10] = true ∧ utf8Ok [0xFF] = false ∧
-    appendString [0xFF] 39 = [39, 92, 117, 102, 102, 102, 100, 39] := by decide +kernel
+/-- `"\xff"` is written `'\xff'` -/
+example : appendString [0xFF] 39 = [39, 92, 120, 102, 102, 39] := by decide +kernel
 
 /-! ## indexes: decimal text round-trips for every int64 -/
 
@@ -102,22 +109,19 @@ theorem int_roundtrip (i : Int) (hi : inInt64 i = true) (c : UInt8) (rest : Byte
     ∃ d ds, fmtInt i = d :: ds ∧ (d = 45 ∨ isDigit d = true) ∧ readInt d (ds ++ c :: rest) = some (i, c, rest) :=
   readInt_fmtInt i hi c rest hc
 
-/-- `Nth.Append` is `FormatInt` between brackets except at the least integer (`C14-nth-minint`) -/
-theorem nth_text (i : Int) (hi : inInt64 i = true) (hm : i ≠ minInt) : nthPrint i = 91 :: (fmtInt i ++ [93]) :=
-  nthPrint_eq i hi hm
+/-- `Nth.Append` is `FormatInt` between brackets, for every index; before 4af356a `Nth(MinInt64)` printed
+`[-'..--).0-*(+,))+(0(]` (finding C14-nth-minint, fixed) -/
+theorem nth_text (i : Int) : nthPrint i = 91 :: (fmtInt i ++ [93]) := nthPrint_eq i
 
-theorem nth_minint_garbage : nthPrint minInt =
-    [91, 45, 39, 46, 46, 45, 45, 41, 46, 48, 45, 42, 40, 43, 44, 41, 41, 43, 40, 48, 40, 93] := by decide +kernel
+/-! ## expressions without filter fragments: C14 in both text forms -/
 
-/-! ## expressions without filter fragments: the partial form of C14, both text forms -/
-
-/-- **C14, expressions, partial.** For every constructible expression `x` (`Frag.okL`) that has no
-filter fragment and for which `Spec.lean` names no deviation in the text form `br` (`devsExpr br x = []`:
-Root/At only in first position, a Descent only in dot form before a token child, a wildcard or the end,
-unions of two or more members without quote/backslash, no `Nth(MinInt64)`, quoted keys valid UTF-8):
-the printed text is accepted, the re-parsed expression prints identically, and it equals `x` up to the
-normal form (evaluates identically). Root, At, children with ANY key bytes (dot or quoted form chosen by
-the regenerated `tokenMap`), indexes, wildcards, descents, unions, slices of every shape. -/
+/-- **C14, expressions.** For every constructible expression `x` (`Frag.okL`) that has no filter fragment
+and for which `Spec.lean` names no deviation (`devsExpr br x = []`: no Root/At after the first position,
+no union of fewer than two members — the objects without a text form), in BOTH text forms: the printed text
+is accepted, the re-parsed expression prints identically, and it equals `x` up to the normal form
+(evaluates identically). Root, At, children with ANY key bytes (dot or quoted form chosen by the
+regenerated `tokenMap`), every int64 index, wildcards, descents anywhere (`..` / `[..]`), unions with any
+member bytes, slices of every shape. -/
 theorem expr_roundtrip_partial (br : Bool) (x : Expr) (hok : Frag.okL x = true) (hnf : noFilter x = true)
     (hdev : devsExpr br x = []) :
     ∃ y, parseExpr (exprPrint br x) = some y ∧ exprPrint br y = exprPrint br x ∧ sameExpr y x = true := by
@@ -129,23 +133,29 @@ theorem expr_roundtrip_bool (br : Bool) (x : Expr) (hok : Frag.okL x = true) (hn
     (hdev : devsExpr br x = []) : roundTripsExpr br x = true :=
   roundTripsExpr_clean br x (cleanExpr_of_spec br x hok hnf hdev)
 
-/-- the hypotheses hold for `$.a['b c'][3]..*[1:5:2]['x',-1]` (dot form) and `$['a'][*]` (bracket form) -/
-example : Frag.okL [.root, .child [97], .child [98, 32, 99], .nth 3, .descent, .wild false, .slice [1, 5, 2],
-      .union [.key [120], .idx (-1)]] = true ∧
-    noFilter [.root, .child [97], .child [98, 32, 99], .nth 3, .descent, .wild false, .slice [1, 5, 2],
-      .union [.key [120], .idx (-1)]] = true ∧
-    devsExpr false [.root, .child [97], .child [98, 32, 99], .nth 3, .descent, .wild false, .slice [1, 5, 2],
-      .union [.key [120], .idx (-1)]] = [] ∧
-    devsExpr true [.root, .child [97], .wild false] = [] := by decide +kernel
+/-- the hypotheses hold for `$.a['b c']['\xff'][3]..[-9223372036854775808]..*[1:5:2]['it\'s',-1]..` -/
+example : Frag.okL [.root, .child [97], .child [98, 32, 99], .child [0xFF], .nth 3, .descent, .nth minInt, .descent,
+      .wild false, .slice [1, 5, 2], .union [.key [105, 116, 39, 115], .idx (-1)], .descent] = true ∧
+    noFilter [.root, .child [97], .child [98, 32, 99], .child [0xFF], .nth 3, .descent, .nth minInt, .descent,
+      .wild false, .slice [1, 5, 2], .union [.key [105, 116, 39, 115], .idx (-1)], .descent] = true ∧
+    devsExpr true [.root, .child [97], .child [98, 32, 99], .child [0xFF], .nth 3, .descent, .nth minInt, .descent,
+      .wild false, .slice [1, 5, 2], .union [.key [105, 116, 39, 115], .idx (-1)], .descent] = [] := by decide +kernel
 
 /-! ## evaluation order: every pair and triple of operators, every nesting shape
 
 For every equation tree with one or two operator nodes over `Not` and all 19 binary constructors
 (`Eq … Regex`, `Match`, `Search`), and every tree with three operator nodes over `Not` and one binary
 constructor per precedence level (plus `-` and `match`), each of `Equation.String`, `Script.String`,
-`Filter.String` is read back to the same template, and printed identically, EXACTLY when `Spec.lean`
-names no deviation for that form (`devsEqn`, `devsScript`, `devsFilter`). Kernel evaluation of the
-printer and parser models over the regenerated operator table and byte tables. -/
+`Filter.String` is read back to the same template and printed identically — with NO exception (before
+e6c1ad4, d27ad83, 9a26786, cd355fe: exactly when no deviation was named). Kernel evaluation of the printer
+and parser models over the regenerated operator table and byte tables. -/
+
+def allThree (e : Eqn) : Bool := roundTripsEqn e && roundTripsScript e && roundTripsFilter e
+
+theorem devsExact_allThree (e : Eqn) (h : devsExact e = true) (hE : devsEqn e = []) (hS : devsScript e = [])
+    (hF : devsFilter e = []) : allThree e = true := by
+  simp only [devsExact, hE, hS, hF, List.isEmpty_nil, Bool.and_eq_true, beq_iff_eq] at h
+  simp [allThree, ← h.1.1, ← h.1.2, ← h.2]
 
 theorem prec_pairs_exact :
     ((pairsATrees ++ pairsBTrees).all fun s => devsExact s.eqn) = true := by
@@ -155,33 +165,25 @@ theorem prec_triples_exact :
     ((triplesATrees ++ triplesBTrees ++ triplesCTrees).all fun s => devsExact s.eqn) = true := by
   rw [List.all_append, List.all_append, triplesA_exact, triplesB_exact, triplesC_exact]; rfl
 
+/-- integer leaves carry no deviation -/
+theorem small_no_devs (s : Shape) : devsEqn s.eqn = [] ∧ devsScript s.eqn = [] ∧ devsFilter s.eqn = [] →
+    devsExact s.eqn = true → allThree s.eqn = true :=
+  fun h hx => devsExact_allThree s.eqn hx h.1 h.2.1 h.2.2
+
+/-- **all three text forms of every small tree round-trip** (unconditionally: the trees' deviation lists are
+empty, checked with them) -/
+theorem prec_small_all :
+    ((pairsATrees ++ pairsBTrees ++ (triplesATrees ++ triplesBTrees ++ triplesCTrees)).all fun s =>
+      allThree s.eqn) = true := by
+  rw [List.all_append, List.all_append, List.all_append, List.all_append, pairsA_all, pairsB_all, triplesA_all,
+    triplesB_all, triplesC_all]; rfl
+
 /-- expressions that CARRY a filter: `$.list[?(e)].x` for every equation tree `e` with one or two operator
 nodes over `Not` and all 19 binary constructors, leaves alternating between a path `@.a` and an integer:
 `String()` and `BracketString()` are read back (nested `readExpr` inside `readEq` inside `readExpr`) to the same
-expression and printed identically EXACTLY when `devsExpr` names no deviation for that text form -/
-theorem filter_expr_pairs_exact : (filterExprTrees.all fun s => devsExactExpr s.filterExpr) = true :=
-  filterExpr_exact
-
-/-- the partial form over the small trees: no named deviation ⇒ all three forms round-trip -/
-theorem prec_small_partial (s : Shape)
-    (hs : s ∈ pairsATrees ++ pairsBTrees ++ (triplesATrees ++ triplesBTrees ++ triplesCTrees))
-    (hE : devsEqn s.eqn = []) (hS : devsScript s.eqn = []) (hF : devsFilter s.eqn = []) :
-    roundTripsEqn s.eqn = true ∧ roundTripsScript s.eqn = true ∧ roundTripsFilter s.eqn = true := by
-  have key : devsExact s.eqn = true := by
-    rcases List.mem_append.mp hs with h | h
-    · exact List.all_eq_true.mp prec_pairs_exact s h
-    · exact List.all_eq_true.mp prec_triples_exact s h
-  simp only [devsExact, hE, hS, hF, List.isEmpty_nil, Bool.and_eq_true, beq_iff_eq] at key
-  exact ⟨key.1.1.symm, key.1.2.symm, key.2.symm⟩
-
-/-- the hypotheses are not vacuous: `(2 * 3) + 4` has no deviation in any form … -/
-example : devsEqn (Shape.bin Gen.JpOps.op_add (.bin Gen.JpOps.op_mult .leaf .leaf) .leaf).eqn = [] ∧
-    devsScript (Shape.bin Gen.JpOps.op_add (.bin Gen.JpOps.op_mult .leaf .leaf) .leaf).eqn = [] := by
-  decide +kernel
-
-/-- … and the deviations are exactly the advertised ones on the witnesses -/
-example : devsEqn witnessTimesPlus = [.equationParens] ∧ devsScript witnessTimesPlus = [] ∧
-    devsScript witnessMinusMinus = [.equalPrec] := by
-  decide +kernel
+expression and printed identically -/
+theorem filter_expr_pairs_all :
+    (filterExprTrees.all fun s => roundTripsExpr false s.filterExpr && roundTripsExpr true s.filterExpr) = true :=
+  filterExpr_all
 
 end OjgVerif.C14
